@@ -537,13 +537,9 @@ contract(
     returns=Dict(STR, STR),
     # class invariant of NamedAnchor: the key is a function of the name (NamedAnchor.__init__ 'classified')
     requires=[_ALL_ANCHORS.format(body=f"{_at('a', 'b')}.key == an_key({_at('a', 'b')}.name)")],
-    bounded_ensures={
-        # a pair is recorded only if SOME glyph carries a mark anchor of exactly that name (equality, not prefix).
-        # BOUNDED (run-time only): the engine's model of `S.update(<filtered generator>)` does not yet let the solvers conclude
-        # anything from membership in the updated set (notes/C06.requests.md R9); the invariant that would carry it is _m_sound.
-        "only-with-counterpart": f"all({_some_mark_named('result[k]')} for k in result)",
-    },
     ensures={
+        # a pair is recorded only if SOME glyph carries a mark anchor of exactly that name (equality, not prefix)
+        "only-with-counterpart": f"all({_some_mark_named('result[k]')} for k in result)",
         # every recorded value is '_' + key of a base anchor of that name the name of a base anchor to '_' + that anchor's key
         "base-anchor-of-that-key": f"all(any(any(not {_at('a', 'b')}.isMark and {_at('a', 'b')}.name == k and result[k] == '_' + {_at('a', 'b')}.key"
         f" for b in range(len({AL}[{KEYS}[a]]))) for a in range(len({KEYS}))) for k in result)",
@@ -556,7 +552,7 @@ contract(
     ghost_vars={"wa": (Dict(STR, INT), "{}"), "wb": (Dict(STR, INT), "{}")},
     ghost={"anchorPairs[anchor.name] = markAnchorName": ["wa = {**wa, anchor.name: i2}", "wb = {**wb, anchor.name: j}"]},
     loops={
-        "for anchors in self.context.anchorLists.values()#1": Loop(index="i1", invariants={"m-complete": _m_complete("i1")}),
+        "for anchors in self.context.anchorLists.values()#1": Loop(index="i1", invariants={"m-complete": _m_complete("i1"), "m-sound": _m_sound("i1")}),
         "for anchors in self.context.anchorLists.values()#2": Loop(index="i2", invariants={
             "in-marks": "all(anchorPairs[k] in markAnchorNames for k in anchorPairs)",
             "wit": _p_wit("wa[k] < i2"),
@@ -685,6 +681,30 @@ contract(
         "names-stay-keys": "all(markClasses[n].name == n for n in markClasses)",
     },
     canaries={"always-defines": "result is not None"},
+)
+
+
+# ---------------------------------------------------------------------------------------------------------
+# composition: what the GPOS offset of a matching pair is, given the per-function clauses above (MarkBasePos / MarkLigPos /
+# MarkMarkPos place the mark so that its anchor lands on the base anchor: offset = base anchor - mark anchor, OpenType spec)
+lemma(
+    "C06.lemma.coincide",
+    props=["C06"],
+    vars={"bx": REAL, "mx": REAL, "q": INT, "B": INT, "M": INT, "kb": INT, "km": INT},
+    hyps=[
+        "q >= 1",
+        # _getAnchor#static for the base anchor and for the mark anchor (own coordinates, nearest multiple, ties upwards)
+        "B == q * kb and 2 * (B - bx) <= q and 2 * (bx - B) < q",
+        "M == q * km and 2 * (M - mx) <= q and 2 * (mx - M) < q",
+    ],
+    concl={
+        # the offset is the difference of the two quantised anchors: a multiple of the step, less than one step away from the true offset
+        "offset-is-multiple": "B - M == q * (kb - km)",
+        "offset-near-true-offset": "(B - M) - (bx - mx) < q and (bx - mx) - (B - M) < q",
+        # with integer anchors and the default step the anchors coincide exactly
+        "exact-when-unquantised": "implies(q == 1 and bx == kb and mx == km, B - M == bx - mx)",
+    },
+    canaries={"always-exact": "B - M == bx - mx"},
 )
 
 
